@@ -40,6 +40,18 @@ type finfo struct {
 	offset  uintptr
 }
 
+// skipNilEmbedded wraps the append function of a field that is reached through
+// an embedded pointer. When a pointer on the way is nil the field is skipped,
+// as encoding/json does, instead of panicking in FieldByIndex.
+func skipNilEmbedded(af appendFunc) appendFunc {
+	return func(fi *finfo, buf []byte, rv reflect.Value, addr uintptr, safe bool) ([]byte, any, appendStatus) {
+		if _, err := rv.FieldByIndexErr(fi.index); err != nil {
+			return buf, nil, aSkip
+		}
+		return af(fi, buf, rv, addr, safe)
+	}
+}
+
 func (f *finfo) keyLen() int {
 	return len(f.jkey)
 }
